@@ -28,6 +28,7 @@ EXPLANATION = (
 ASSUMPTIONS = [
     "coder axioms: int(str(n))=n, float(str(x))=x, b64 round trip, value-preserving wire (json/base64/float repr are C code); "
     "non-finite floats and the behaviour of non-JSON serializers are outside the claim",
+    "int(float(n)) of a symbolic int is IEEE-754 double rounding, exact for |n| < 2^54 and unconstrained beyond (vt.models.FloatOfInt)",
 ]
 TRUSTED = ["z3 5.1", "vt.models (builtin models + axioms)", "vt.sym explorer"]
 BOUNDS = {"label values": "all ints, both bools, 1 opaque float, 1 opaque bytes, 6 strings", "retries/requeues": "<= 2 quick / 3 thorough", "kicker operations": "<= 2 quick / 4 thorough"}
@@ -279,3 +280,22 @@ def signature(f: Dict[str, Any]) -> str:
     if f["label"] == "label_value_and_type_preserved":
         sig += ":" + str(f["info"].get("kind")) + ":" + ">".join(f["info"].get("history", []))
     return sig
+
+
+def extra(tier: str, seed: int) -> List[Dict[str, Any]]:
+    """the rounding formula of the int(float(n)) model, run on plain ints, against CPython"""
+    import random
+
+    from vt.models import FloatOfInt
+
+    rng = random.Random(seed)
+    bad: List[str] = []
+    n_cmp = 20000 if tier == "quick" else 200000
+    for _ in range(n_cmp):
+        n = rng.choice([rng.randrange(-(2**54) + 1, 2**54), 2**53 + rng.randrange(-5, 2000), -(2**53) - rng.randrange(-5, 2000),
+                        2**54 - rng.randrange(1, 50), -(2**54) + rng.randrange(1, 50)])
+        m = FloatOfInt(n).to_int(force_model=True)
+        if m != int(float(n)):
+            bad.append(f"n={n} model={m} real={int(float(n))}")
+    return [{"name": f"int(float(n)) model differential validation ({n_cmp} comparisons, |n| < 2^54)", "verdict": "unsat" if not bad else "mismatch",
+             "expected": "unsat", "solver": "differential test vs CPython float", "time_s": 0, "mismatches": bad[:10]}]
